@@ -255,8 +255,8 @@ typedef struct {
 static void enumerate_c16(void)
 {
 	c16_docs();
-	int maxdepth = vf_thorough ? 8 : 5;
-	int cap = 1 << 19, hcap = 1 << 20;
+	int maxdepth = vf_thorough ? 9 : 5;
+	int cap = 1 << 21, hcap = 1 << 22;
 	lstate_t *LS = calloc(cap, sizeof *LS);
 	int *hash = malloc(sizeof(int) * hcap), nls = 0;
 	for (int i = 0; i < hcap; i++)
